@@ -89,6 +89,7 @@ pub fn replay_fun(property: &str, scenario: &str, input: &serde_json::Value) -> 
     }
     match property {
         "C05" => c05::replay_fun(scenario, input),
+        "C06" if scenario == "fun:c06-unread-output" => life::c06_unread_case(input["cap"].as_u64().unwrap_or(2560) as usize, input["source"].as_str().unwrap_or("both")),
         "C14" => c14::replay_fun(scenario, input),
         "C13" => c13::replay_fun(scenario, input),
         "C18" => c18::replay_fun(input),
